@@ -614,7 +614,13 @@ func (ts *TunnelSet) checkShellKey(t *Tunnel) {
 		simrt.Failf("harness", "tunnel hops not observed", "tunnel %d", t.ID)
 	}
 	last := t.hops[len(t.hops)-1]
-	ik := ts.m.Nodes[t.Ingress].A.VerifShellClientKeys()[t.FirstHopID]
+	ik, present := ts.m.Nodes[t.Ingress].A.VerifShellClientKeys()[t.FirstHopID]
+	if !present {
+		// a command that ends at once: the session is over (and its client
+		// record gone) before this check runs
+		simrt.Probe("c03_initiator_record_gone")
+		return
+	}
 	if ik == nil {
 		simrt.Failf("tunnel-without-key", "opened tunnel has no session key at the ingress", "tunnel %d (shell)", t.ID)
 	}
